@@ -80,6 +80,10 @@ pub enum Op {
     SweepSave { kind: String, stride: u64 },
     SweepLoad { kind: String, stride: u64 },
     SweepDamage { kind: String, stride: u64 },
+    /// two caller threads of one process save different results to different paths at the same
+    /// time; the shim's scheduler (seeded with `sched_seed`) decides at every file call which of
+    /// them proceeds
+    ConcurrentSaves { sched_seed: u64, hash_seed: u64 },
 }
 
 #[derive(Clone, Debug, PartialEq)]
@@ -160,6 +164,7 @@ impl Op {
             Op::Use { formula } => json!({"op": "use", "formula": formula.to_json(), "text": formula.render()}),
             Op::NewSets { seed } => json!({"op": "new_sets", "seed": seed}),
             Op::RestoreMtime => json!({"op": "restore_mtime"}),
+            Op::ConcurrentSaves { sched_seed, hash_seed } => json!({"op": "concurrent_saves", "sched_seed": sched_seed, "hash_seed": hash_seed}),
             Op::SweepSave { kind, stride } => json!({"op": "sweep_save", "kind": kind, "stride": stride}),
             Op::SweepLoad { kind, stride } => json!({"op": "sweep_load", "kind": kind, "stride": stride}),
             Op::SweepDamage { kind, stride } => json!({"op": "sweep_damage", "kind": kind, "stride": stride}),
@@ -177,6 +182,7 @@ impl Op {
             "use" => Op::Use { formula: F::from_json(&v["formula"])? },
             "new_sets" => Op::NewSets { seed: u("seed") },
             "restore_mtime" => Op::RestoreMtime,
+            "concurrent_saves" => Op::ConcurrentSaves { sched_seed: u("sched_seed"), hash_seed: u("hash_seed") },
             "sweep_save" => Op::SweepSave { kind: s("kind"), stride: u("stride").max(1) },
             "sweep_load" => Op::SweepLoad { kind: s("kind"), stride: u("stride").max(1) },
             "sweep_damage" => Op::SweepDamage { kind: s("kind"), stride: u("stride").max(1) },
@@ -359,6 +365,13 @@ pub fn generate(rng: &Rng, world: &World, tier: &str) -> C16 {
                 ops.push(Op::RestoreMtime);
             }
             ops.push(Op::Load { plan: String::new(), hash_seed: h.next_u64() });
+        }
+        {
+            // (own PRNG stream, so that the rest of the history is what it was before this operation existed)
+            let mut rc = rng.fork("c16.concurrent");
+            if !cli_form && !sets.is_empty() && rc.chance(1, 5) {
+                ops.push(Op::ConcurrentSaves { sched_seed: rc.next_u64() % 1_000_000, hash_seed: rc.next_u64() });
+            }
         }
         let clean_prefix = r.chance(1, 2);
         for step in 0..nops {
@@ -1191,6 +1204,79 @@ pub fn check(world: &World, sc: &C16, sandbox: &str) -> Report {
                     loaded = None;
                 }
                 rep.event(format!("new_sets {seed}"));
+            }
+            Op::ConcurrentSaves { sched_seed, hash_seed } => {
+                let other: BTreeMap<String, Gcv> = cx
+                    .inmem
+                    .keys()
+                    .enumerate()
+                    .filter_map(|(i, l)| build_set(&cx.graph, &SetSpec::Dnf(sched_seed % 1000 + 17 * i as u64)).ok().map(|x| (l.clone(), x)))
+                    .collect();
+                let mut other_formulae = sc.formulae.clone();
+                other_formulae.reverse();
+                other_formulae.push("true".to_string());
+                let mk = |path: String, inmem: BTreeMap<String, Gcv>| Ctx16 {
+                    bn: cx.bn.clone(),
+                    graph: cx.graph.clone(),
+                    k: cx.k,
+                    inmem,
+                    model_text: cx.model_text.clone(),
+                    path,
+                    io_dir: cx.io_dir.clone(),
+                    clock: cx.clock.clone(),
+                };
+                let ca = mk(format!("{}/conc-a/results.zip", cx.io_dir), cx.inmem.clone());
+                let cb = mk(format!("{}/conc-b/results.zip", cx.io_dir), other);
+                let jobs: Vec<(&Ctx16, Vec<String>)> = vec![(&ca, sc.formulae.clone()), (&cb, other_formulae.clone())];
+                simenv::io(&cx.io_dir, "");
+                simenv::sched_begin(jobs.len(), *sched_seed);
+                let outcomes: Vec<Outcome<()>> = std::thread::scope(|scope| {
+                    let mut hs = Vec::new();
+                    for (id, (c, fl)) in jobs.iter().enumerate() {
+                        // each thread draws its hash keys (first map of the thread) before the next one starts
+                        simenv::reseed(hash_seed.wrapping_add(id as u64));
+                        let (tx, rx) = std::sync::mpsc::channel::<()>();
+                        let fl = fl.clone();
+                        let h = std::thread::Builder::new()
+                            .stack_size(64 << 20)
+                            .spawn_scoped(scope, move || {
+                                let mut m: HashMap<String, Gcv> = HashMap::new();
+                                for (l, x) in &c.inmem {
+                                    m.insert(l.clone(), x.clone());
+                                }
+                                let _ = tx.send(());
+                                simenv::sched_join(id);
+                                let r = std::panic::catch_unwind(std::panic::AssertUnwindSafe(|| build_result_archive(m, &c.path, &c.model_text, fl).map_err(|e| e.to_string())));
+                                simenv::sched_leave();
+                                r
+                            })
+                            .expect("spawn");
+                        let _ = rx.recv();
+                        hs.push(h);
+                    }
+                    hs.into_iter()
+                        .map(|h| match h.join() {
+                            Ok(Ok(Ok(()))) => Outcome::Ok(()),
+                            Ok(Ok(Err(e))) => Outcome::Err(e),
+                            _ => Outcome::Panic("panic in a saving thread".to_string()),
+                        })
+                        .collect()
+                });
+                let (switches, points) = simenv::sched_end();
+                rep.event(format!("concurrent_saves seed={sched_seed} {} {} switches={switches} points={points}", outcomes[0].describe(), outcomes[1].describe()));
+                rep.probe("concurrent_save_pairs", 1);
+                rep.probe("concurrent_save_context_switches", switches);
+                sig ^= fnv1a(format!("conc{}", switches.min(40)).as_bytes()).rotate_left(oi as u32);
+                for ((c, fl), (o, who)) in [(&ca, &sc.formulae), (&cb, &other_formulae)].into_iter().zip(outcomes.iter().zip(["first", "second"])) {
+                    let how = format!("op {oi} two threads saving at the same time (schedule seed {sched_seed}), {who} thread");
+                    match o {
+                        Outcome::Ok(()) => c.verify_acknowledged(fl, false, &mut rep, &how),
+                        other => rep.violate("save_failed_without_fault", format!("{how}: {} although no fault was injected", other.describe())),
+                    }
+                    if rep.violation.is_some() {
+                        break;
+                    }
+                }
             }
             Op::RestoreMtime => {
                 if let (Some(t), Ok(f)) = (first_mtime, std::fs::OpenOptions::new().write(true).open(&cx.path)) {
